@@ -97,6 +97,7 @@ func (w *wireRun) startSrvOpt(dir, name, conf string, wrapper []string, ports []
 	s := &wireSrv{logp: filepath.Join(dir, name+".log"), exited: make(chan error, 1)}
 	s.logf, _ = os.Create(s.logp)
 	argv := append(append([]string{}, wrapper...), bin, "-c", cf, "-L", loglevel)
+	argv = append(argv, w.extraArgs...)
 	s.cmd = exec.Command(argv[0], argv[1:]...)
 	s.cmd.Stdout, s.cmd.Stderr = s.logf, s.logf
 	if tty {
@@ -660,6 +661,48 @@ server6:
 			}
 			link6 = "ve1"
 		}
+		// datagrams unicast to the server's address on one link whose answer belongs to a peer that is routed
+		// over the other link (a relay or a renewing client behind another interface: asymmetric paths):
+		// replies to routable addresses follow the routing table, whatever link the request came in on
+		for _, arr := range []string{"ve1", "vf1"} {
+			other := map[string]string{"ve1": "vf1", "vf1": "ve1"}[arr]
+			_, inMAC, srvIP := relayOf(arr)
+			inIP, _, _ := relayOf(arr)
+			farIP, farMAC, _ := relayOf(other)
+			for _, kind := range []string{"giaddr", "ciaddr"} {
+				mac := []byte{0x02, 0xc7, byte(w.rng.Intn(256)), byte(w.rng.Intn(256)), 2, byte(w.rng.Intn(256))}
+				w.xid++
+				p := pkt.Request4(0xc0000+w.xid, mac, 1, pkt.O4(55, 1, 3))
+				wantIP, wantMAC, wantPort := farIP, farMAC, uint16(67)
+				sport := uint16(67)
+				if kind == "giaddr" {
+					p.Gi, p.Hops = farIP, 1
+				} else {
+					p = pkt.Request4(0xc0000+w.xid, mac, 3, pkt.O4(55, 1, 3))
+					ci := farIP
+					ci[3] = 51
+					p.Ci = ci
+					wantIP = ci
+					wantMAC = append([]byte{}, farMAC...)
+					wantMAC[5] = 0x51
+					wantPort, sport = 68, 68
+				}
+				req := p.Bytes()
+				obs := w.exchange(arr, pkt.BuildFrame4(inMAC, srvMAC[arr], inIP, srvIP, sport, 67, req), 500*time.Millisecond)
+				_, o := w.judgeVariant4(name, req, obs, fmt.Sprintf("request with %s %v unicast to %v on %s", kind, net.IP(wantIP[:]), net.IP(srvIP[:]), arr))
+				if w.srvDied(s, name, "a request whose reply is routed over the other link", req) {
+					return
+				}
+				ctx.Eval("C15", 1)
+				if o == nil {
+					ctx.Viol("C15", "wire:routed-reply-missing", "%s: a request unicast to %v on %s with %s %v (routed over %s) got no reply on either link within 500 ms", name, net.IP(srvIP[:]), arr, kind, net.IP(wantIP[:]), other)
+				} else if o.link != other || o.f4.DstIP != wantIP || o.f4.DstPort != wantPort || !bytes.Equal(o.f4.DstMAC[:], wantMAC) {
+					ctx.Viol("C15", "wire:routed-reply-pinned", "%s: a request unicast to %v on %s with %s %v: the reply went to %s / %v:%d on the link of %s; it belongs to %s / %v:%d on %s, where the routing table sends it", name, net.IP(srvIP[:]), arr, kind, net.IP(wantIP[:]), net.HardwareAddr(o.f4.DstMAC[:]), net.IP(o.f4.DstIP[:]), o.f4.DstPort, o.link, net.HardwareAddr(wantMAC), net.IP(wantIP[:]), wantPort, other)
+				} else {
+					ctx.Count("wire.default_listen.replies_routed_over_the_other_link", 1)
+				}
+			}
+		}
 		// requests of both links queued while the server does not run (a scheduling gap, here SIGSTOP ..
 		// SIGCONT): whatever the read loop does with a backlog, every reply belongs on its request's link
 		if syscall.Kill(s.cmd.Process.Pid, syscall.SIGSTOP) == nil {
@@ -817,10 +860,98 @@ server6:
 		s.stop()
 	}
 
+	// ------------------------------------------------------------------ DHCPv6 on one specific unicast address
+	{
+		conf := "server6:\n  listen: ['[2001:db8:77::1]']\n  plugins:\n    - server_id: LL 00:de:ad:be:ef:00\n    - dns: 2001:db8::53\n"
+		name := "real binary, DHCPv6 listening on [2001:db8:77::1] (an address of ve0, no zone)"
+		s, state := w.startSrv(dir, "addr6", conf, nil, []string{"/proc/net/udp6:0223"}, 10*time.Second, nil)
+		if state != "ready" {
+			if s != nil {
+				s.stop()
+			}
+			ctx.Inconclusive("wire/specific-address-v6: the server did not come up (%s)", state)
+			return
+		}
+		// a link-local client whose datagram is addressed to 2001:db8:77::1 but arrives on either link (the
+		// kernel delivers it: weak host model); the reply to a link-local peer belongs on the arrival link
+		for _, link := range []string{"vf1", "ve1"} {
+			cmac := []byte{0x02, 0xaa, 0x00, 0x00, 0x00, 0x52}
+			if link == "vf1" {
+				cmac[4] = 1
+			}
+			var src16, dst16 [16]byte
+			copy(src16[:], net.ParseIP("fe80::aa:52").To16())
+			copy(dst16[:], net.ParseIP("2001:db8:77::1").To16())
+			w.xid++
+			msg := pkt.Msg6(11, w.xid&0xffffff, []pkt.Opt6{pkt.O6(pkt.OptClientID6, pkt.DUIDLL(cmac)), pkt.ORO(23)})
+			obs := w.exchange(link, pkt.BuildFrame6(cmac, srvMAC[link], src16, dst16, 546, 547, msg), 500*time.Millisecond)
+			if w.srvDied(s, name, "an INFORMATION-REQUEST", msg) {
+				return
+			}
+			ctx.Eval("C12", 1)
+			var got *wireObs
+			for i := range obs {
+				if obs[i].f6 != nil {
+					got = &obs[i]
+				}
+			}
+			if got == nil {
+				ctx.Viol("C12", "wire:no-reply", "%s: an INFORMATION-REQUEST from fe80::aa:52 addressed to 2001:db8:77::1 that arrived on %s got no reply on either link", name, link)
+			} else if got.link != link {
+				ctx.Viol("C12", "wire:wrong-link", "%s: the reply to a link-local client whose request arrived on %s left on the link of %s", name, link, got.link)
+			} else {
+				ctx.Count("wire.specific_address_v6.replies_on_arrival_link", 1)
+			}
+		}
+		s.stop()
+	}
+
+	// ------------------------------------------------------------------ a log file that cannot be written
+	{
+		conf := fmt.Sprintf("server4:\n  listen: ['0.0.0.0']\n  plugins:\n    - server_id: 10.77.0.1\n    - range: %s/leases-logfull.db 10.77.0.100 10.77.0.180 60s\n    - netmask: 255.255.255.0\n", dir)
+		name := "real binary, --logfile /dev/full (opens, every write fails with ENOSPC), log level info"
+		w.varServerID = []byte{10, 77, 0, 1}
+		w.extraArgs = []string{"--logfile", "/dev/full"}
+		s, state := w.startSrvOpt(dir, "logfull", conf, nil, []string{"/proc/net/udp:0043"}, 10*time.Second, nil, "info", false)
+		w.extraArgs = nil
+		if state != "ready" {
+			if s != nil {
+				s.stop()
+			}
+			ctx.Inconclusive("wire/logfile-full: the server did not come up (%s)", state)
+			return
+		}
+		answered, lastUnanswered := 0, -1
+		for k := 0; k < 320; k++ {
+			mac := []byte{0x02, 0xc5, 0, 0, 3, byte(k % 40)}
+			w.xid++
+			p := pkt.Request4(0xd0000+w.xid, mac, byte(1+2*(k%2)), pkt.O4(55, 1, 3))
+			p.Flags = 0x8000
+			req := p.Bytes()
+			obs := w.exchange("ve1", pkt.BuildFrame4(mac, bcast, [4]byte{}, [4]byte{255, 255, 255, 255}, 68, 67, req), 400*time.Millisecond)
+			if _, o := w.judgeVariant4(name, req, obs, "broadcast-flag request"); o != nil {
+				answered++
+			} else {
+				lastUnanswered = k
+			}
+			if w.srvDied(s, name, "a broadcast-flag request", req) {
+				return
+			}
+		}
+		ctx.Eval("C01", 320)
+		ctx.Count("wire.logfile_full.requests_answered", int64(answered))
+		if answered < 300 {
+			ctx.Viol("C01", "wire:server-stops-answering", "%s: %d of 320 well-formed broadcast-flag requests of 40 clients were answered (the last unanswered one was #%d): the process is alive but no longer handles requests", name, answered, lastUnanswered)
+		}
+		s.stop()
+	}
+
 	// ------------------------------------------------------------------ started by hand: stdio on a terminal, -L debug
 	{
 		name := "real binary, dual-stack, stdout/stderr on a terminal, log level debug"
-		s, state := w.startSrvOpt(dir, "tty", fmt.Sprintf(dual("['0.0.0.0']", "['[::]']"), "tty"), nil, []string{"/proc/net/udp:0043", "/proc/net/udp6:0223"}, 10*time.Second, nil, "debug", true)
+		// (a pool of two blocks: the third and later clients below meet an exhausted pool)
+		ttyConf := strings.Replace(fmt.Sprintf(dual("['0.0.0.0']", "['[::]']"), "tty"), "2001:db8:aa00::/56 64", "2001:db8:aa00::/63 64", 1)
+		s, state := w.startSrvOpt(dir, "tty", ttyConf, nil, []string{"/proc/net/udp:0043", "/proc/net/udp6:0223"}, 10*time.Second, nil, "debug", true)
 		if state != "ready" {
 			if s != nil {
 				s.stop()
@@ -832,15 +963,40 @@ server6:
 				return
 			}
 		} else {
-			for k := 0; k < 3; k++ {
+			for k := 0; k < 4; k++ {
 				pfx, answered := solicit6(k, 1, false)
 				if w.srvDied(s, name, "a SOLICIT with an IA_PD", nil) {
 					return
+				}
+				if k >= 2 {
+					// the pool (two blocks) is exhausted: NoPrefixAvail, from a server that is still there
+					if !answered {
+						ctx.Viol("C01", "wire:no-reply", "%s: a SOLICIT with an IA_PD from fe80::aa:%x got no reply once the pool was exhausted", name, 0x50+k)
+					} else {
+						ctx.Count("wire.tty.requests_on_exhausted_pool", 1)
+					}
+					continue
 				}
 				if !answered || len(pfx) == 0 {
 					ctx.Viol("C01", "wire:no-reply", "%s: a SOLICIT with an IA_PD from fe80::aa:%x got no prefix (answered=%v)", name, 0x50+k, answered)
 				} else {
 					ctx.Count("wire.tty.prefixes_delegated", 1)
+				}
+			}
+			{
+				// the same with a hint the exhausted pool cannot honour
+				cmac := []byte{0x02, 0xaa, 0x00, 0x00, 0x00, 0x53}
+				var src16, dst16 [16]byte
+				copy(src16[:], net.ParseIP("fe80::aa:53").To16())
+				if ll := w.llOf("ve0"); ll != nil {
+					copy(dst16[:], ll.To16())
+					w.xid++
+					msg := pkt.Msg6(1, w.xid&0xffffff, []pkt.Opt6{pkt.O6(pkt.OptClientID6, pkt.DUIDLL(cmac)), pkt.IAPD(2, 0, 0, []pkt.Opt6{pkt.IAPrefix(0, 0, 64, net.ParseIP("2001:db8:aa00:1::"), nil)})})
+					w.exchange("ve1", pkt.BuildFrame6(cmac, w.ve0mac, src16, dst16, 546, 547, msg), 300*time.Millisecond)
+					if w.srvDied(s, name, "a SOLICIT whose hint an exhausted pool cannot honour", msg) {
+						return
+					}
+					ctx.Count("wire.tty.hints_on_exhausted_pool", 1)
 				}
 			}
 			mac := []byte{0x02, 0xce, byte(w.rng.Intn(256)), byte(w.rng.Intn(256)), 0, 1}
